@@ -25,9 +25,9 @@ theorem schema_native_names_are_source :
     nativeTable.map (fun p => (p.1, ScyllaVerif.Props.TablesResp.nativeName p.2)) = ScyllaVerif.Generated.schemaNativeNames := rfl
 
 private theorem mapStringS_cases (s : Str) :
-    (∃ t, mapStringS s = .ok t ∧ nestPre t ≤ TOP_FUEL) ∨ (∃ a b, mapStringS s = .error (.perr a b)) := by
+    (∃ t, mapStringS s = .ok t ∧ nestPre t ≤ C08S.TOP_FUEL) ∨ (∃ a b, mapStringS s = .error (.perr a b)) := by
   unfold mapStringS
-  rcases good_cases (parseTy_good TOP_FUEL s) with ⟨t, r, e, _, n⟩ | ⟨a, b, e⟩
+  rcases good_cases (parseTy_good C08S.TOP_FUEL s) with ⟨t, r, e, _, n⟩ | ⟨a, b, e⟩
   · rw [e]; simp only []
     split
     · exact .inl ⟨t, rfl, n⟩
@@ -65,18 +65,22 @@ theorem schema_type_parse_consumes (fuel : Nat) (s r : Str) (t : PreTy) (h : par
 
 /-! non-vacuity: the limit sits exactly where the fix put it -/
 
-private def tower (open_ close : String) (n : Nat) : Bytes :=
-  asciiBytes (String.join (List.replicate n open_) ++ "int" ++ String.join (List.replicate n close))
+private def tower (o c : Bytes) (n : Nat) : Bytes :=
+  (List.replicate n o).flatten ++ [0x69, 0x6e, 0x74] ++ (List.replicate n c).flatten
+/-- `frozen<`, `list<`, `>` -/
+private def FROZEN : Bytes := [0x66, 0x72, 0x6f, 0x7a, 0x65, 0x6e, 0x3c]
+private def LIST : Bytes := [0x6c, 0x69, 0x73, 0x74, 0x3c]
+private def GT : Bytes := [0x3e]
 
-/-- `frozen<` × 128 parses (and `freeze_type` leaves the native type), × 129 is rejected at the innermost level. -/
-example : (match mapString [] (tower "frozen<" ">" 128) with | .ok (.native .int) => true | _ => false) = true := by
+/-- `frozen<` × 128 + `int` parses (and `freeze_type` leaves the native type), × 129 is rejected at the innermost level. -/
+example : (match mapString [] (tower FROZEN GT 128) with | .ok (.native .int) => true | _ => false) = true := by
   decide +kernel
-example : (match mapString [] (tower "frozen<" ">" 129) with
+example : (match mapString [] (tower FROZEN GT 129) with
     | .error (.perr _ "type_nested_too_deeply") => true | _ => false) = true := by decide +kernel
 /-- `list<` × 128 reaches the bound of `schema_type_nesting_bounded` exactly. -/
-example : (match mapString [] (tower "list<" ">" 128) with | .ok t => nestPre t | _ => 0) = 129 := by decide +kernel
+example : (match mapString [] (tower LIST GT 128) with | .ok t => nestPre t | _ => 0) = 129 := by decide +kernel
 /-- the reproducer of the repaired defect (`frozen<` × 1000 + `int` + `>` × 1000, 8 003 bytes) is now an error -/
-example : (match mapString [] (tower "frozen<" ">" 1000) with
+example : (match mapString [] (tower FROZEN GT 1000) with
     | .error (.perr _ "type_nested_too_deeply") => true | _ => false) = true := by decide +kernel
 example : (match mapString [] (asciiBytes "map<int, frozen<tuple<text, my.udt>>>") with
     | .ok (.map false (.native .int) (.tuple [.native .text, .udt false _])) => true | _ => false) = true := by
